@@ -197,7 +197,17 @@ def r1_commits(program, rep):
             want = it.sym("subtract_resources(%s[%s], %s[%s])" % (
                 mach, unparse(lexp), vres, unparse(vexp)), inode)
             ok = False
-            for c, p, a in fl.facts(node):
+            # (a) on value terms: temporaries, hoisted look-ups resolved
+            want_t = plain(T.term(ast.parse(
+                "subtract_resources(%s[%s], %s[%s])" % (
+                    mach, unparse(lexp), vres, unparse(vexp)),
+                mode="eval").body, node))
+            for t, p in T.all_facts(node):
+                if not p and _is_call(plain(t), "overallocated") and \
+                        len(t[2]) == 1 and plain(t[2][0]) == want_t:
+                    ok = True
+            # (b) in the interpreter's equality domain
+            for c, p, a in ([] if ok else fl.facts(node)):
                 if p or not (isinstance(c, ast.Call) and
                              call_name(c)[0] == "overallocated" and
                              len(c.args) == 1):
@@ -221,6 +231,10 @@ def r1_commits(program, rep):
                 if not (mn is node or cfg.dominates(mn, node) or
                         cfg.must_pass(node, lambda n, mn=mn: n is mn,
                                       targets=heads + [cfg.exit])):
+                    continue
+                if T.term(ms.targets[0].slice, mn) == LOC and \
+                        plain(T.term(ms.value, mn)) == want_t:
+                    okm = True
                     continue
                 imn = it.cfg.node_of(ms)
                 same_loc = it.holds_at(imn, eq(
@@ -488,35 +502,90 @@ def r2_kernel(program, rep):
                                "unnoticed" % (call_name(c)[0],
                                               unparse(c.args[0]),
                                               unparse(c.args[1])))
-    # C kernel: one resource order
+    rep.guard("C02-R2", _c_kernel, program, rep)
+    rep.floor("C02-R2", 14)
+
+
+def _c_kernel(program, rep):
+    """What CKernel.__init__ hands to the C library, on value terms: the
+    resource index used for a vertex's requirement and for a chip's free
+    quantity is the position in one and the same list; the quantities are
+    that vertex's / that chip's own; the movable flag is membership of the
+    movable set."""
+    from ..terms import stores as t_stores
     ck = program.get(PL + ".sa.c_kernel:CKernel.__init__")
-    loops = [lp for lp in ast.walk(ck) if isinstance(lp, ast.For) and
-             isinstance(lp.iter, ast.Call) and
-             call_name(lp.iter)[0] == "enumerate" and
-             isinstance(lp.target, ast.Tuple) and
-             chain(lp.target.elts[1]) == "resource"]
-    srcs = set(unparse(lp.iter.args[0]) for lp in loops)
+    K = Terms(ck)
+    ps = formals(ck)
+    VR, MOV, MACH = (("param", n_) for n_ in (
+        "vertices_resources", "movable_vertices", "machine"))
+
+    def order_of(t):
+        # list(x) / tuple(x) / sorted? no: only order-preserving copies
+        t = plain(t)
+        while t[0] == "call" and t[1] in (("global", "list"),
+                                          ("global", "tuple")) and \
+                len(t[2]) == 1 and not t[3]:
+            t = t[2][0]
+        return t
+    reqs = [x for x in t_stores(K) if x[2][0] == "attr" and
+            x[2][2] == "vertex_resources"]
+    sets = []
+    for c in calls_in(ck, "sa_set_chip_resources"):
+        n = K.cfg.node_containing(c)
+        sets.append([K.term(a, n) for a in c.args])
+    if len(reqs) != 1 or len(sets) != 1 or len(sets[0]) != 5:
+        raise AnalysisError("CKernel.__init__: the per-resource calls were "
+                            "not found in the form analysed")
+    _, _, _, ridx, rval = reqs[0]
+    _, sx, sy, sidx, sval = sets[0]
+    ok = ridx[0] == "index" and sidx[0] == "index"
+    srcs = sorted(set(show(order_of(x[1])) for x in (ridx, sidx)
+                      if x[0] == "index"))
+    ORDER = ("attr", MACH, "chip_resources")
+    okn = ok and order_of(ridx[1]) == ORDER and order_of(sidx[1]) == ORDER
     new = calls_in(ck, "sa_new")
-    okn = len(loops) == 2 and srcs == {"machine.chip_resources"} and \
-        len(new) == 1 and "len(machine.chip_resources)" in [
-            unparse(a) for a in new[0].args]
+    okn = okn and len(new) == 1 and any(
+        order_of(x[2][0]) == ORDER for x in [
+            plain(K.term(a, K.cfg.node_containing(new[0])))
+            for a in new[0].args]
+        if x[0] == "call" and x[1] == ("global", "len") and len(x[2]) == 1)
     rep.check(okn, "C02-R2", qual(ck), "vertex requirements and per-chip "
               "free resources are indexed by one enumeration of the "
               "machine's resource list", construct="C kernel resource order "
-              "%s" % sorted(srcs), node=ck,
+              "%s" % srcs, node=ck,
               fail="the C kernel's resource index is taken from different "
                    "enumerations (%s): on a chip whose exception "
                    "dictionary lists resources in another order the "
-                   "quantities are swapped" % sorted(srcs))
-    t = unparse(ck)
-    okc = "machine[x, y][resource]" in t and \
-        "vertices_resources[vertex].get(resource, 0)" in t and \
-        "vertex in movable_vertices" in t
-    rep.check(okc, "C02-R2", qual(ck), "the C kernel is given each chip's "
-              "own free resources, each vertex's requirement per resource, "
-              "and the movable/fixed split", construct="C kernel inputs",
-              node=ck)
-    rep.floor("C02-R2", 14)
+                   "quantities are swapped" % srcs)
+    okc = ok
+    if okc:
+        RES_R, RES_S = ("elem", ridx[1]), ("elem", sidx[1])
+        pr = plain(rval)
+        okc = pr[0] == "get" and len(pr) == 4 and pr[2] == plain(RES_R) and \
+            pr[3] == ("const", 0) and pr[1][0] in ("item", "comp") and (
+                (pr[1][0] == "item" and pr[1][1] == VR) or
+                (pr[1][0] == "comp" and pr[1][2] == 1))
+        ps_ = plain(sval)
+        EM = ("elem", MACH)
+        own_chip = ps_[0] == "item" and (
+            ps_[1] == ("item", MACH, ("tuple", plain(sx), plain(sy))) or
+            (ps_[1] in (("item", MACH, EM),
+                        ("comp", ("elem", ("items", MACH)), 1)) and
+             plain(sx) == ("comp", EM, 0) and plain(sy) == ("comp", EM, 1)))
+        okc = okc and own_chip and ps_[2] == plain(RES_S)
+    flags = []
+    for c in calls_in(ck, "sa_add_vertex_to_chip"):
+        n = K.cfg.node_containing(c)
+        flags.append((K.term(c.args[-1], n), K.term(c.args[1], n)))
+    okf = len(flags) == 1
+    if okf:
+        f_, v_ = flags[0]
+        okf = f_[0] == "cmp" and f_[1] == "In" and \
+            plain(f_[3]) in (MOV, ("call", ("global", "set"), (MOV,), ()))
+    rep.check(okc and okf, "C02-R2", qual(ck), "the C kernel is given each "
+              "chip's own free resources, each vertex's requirement per "
+              "resource, and the movable/fixed split",
+              construct="C kernel inputs", node=ck)
 
 
 def r3_dispatch(program, rep):
@@ -547,8 +616,16 @@ def r3_dispatch(program, rep):
             # the loop runs over the constraints returned by the merge
             ds = fl.reaching("constraints", fl.cfg.loop_head[id(loops[0])])
             ok = ok and len(ds) == 1 and ds[0].mode == "unpack"
-            errs = sorted(set(raise_name(r) for r in raises_of(fn)
-                              if _inside(r, loops[0])))
+            called = set(c.func.id for c in ast.walk(loops[0])
+                         if isinstance(c, ast.Call) and
+                         isinstance(c.func, ast.Name))
+            helpers = [h for h in ast.walk(fn)
+                       if isinstance(h, ast.FunctionDef) and h is not fn and
+                       h.name in called]
+            errs = sorted(set(
+                [raise_name(r) for r in raises_of(fn)
+                 if _inside(r, loops[0])] +
+                [raise_name(r) for h in helpers for r in raises_of(h)]))
             sig[name] = errs
             ok = ok and errs == ["InsufficientResourceError",
                                  "InvalidConstraintError"]
